@@ -542,6 +542,33 @@ def transpose(a):
     return out
 
 
+def transpose_axes(a, axes):
+    """a.transpose(*axes) / np.transpose(a, axes) with an explicit permutation of concrete axis numbers: result axis j is source axis axes[j]
+    (a view of the base array, like the plain transpose)"""
+    a = asarray(a)
+    nd = a.ndim
+    if len(axes) != nd or not all(isinstance(k, int) and not isinstance(k, bool) for k in axes):
+        raise Unsupported("transpose with a symbolic or incomplete axis list")
+    order = [k % nd for k in axes]
+    if sorted(order) != list(range(nd)):
+        raise Unsupported("transpose: axes are not a permutation")
+    if nd == 2 and order == [1, 0]:
+        return transpose(a)
+    if order == list(range(nd)):
+        return a
+    ax = tuple(a.axes[k] for k in order)
+    f = a.snapshot_fn()
+
+    def fn(idx):
+        o = [None] * nd
+        for j, k in enumerate(order):
+            o[k] = idx[j]
+        return f(tuple(o))
+    out = Arr(ax, fn, a.kind)
+    out.meta["view_of"] = a
+    return out
+
+
 def _term_T(a):
     if a.term is None:
         return None
